@@ -264,6 +264,29 @@ Example c13_no_stranding_history :
   out_to st' 2 = [FArray [FBulk (bs "q"); FBulk (bs "c")]].
 Proof. vm_compute. repeat split; reflexivity. Qed.
 
+(** ---- open class stolen-wakeup-overtakes (known finding, KNOWN-FINDING line of the check) ----
+    "Clients blocked on a key are served in the order they blocked" fails on one path.  Client 2
+    blocks on r, THEN client 1 blocks on q and r.  One batch pushes to q, pops q again and pushes y
+    to r.  Client 1's wake-up (for q) finds nothing and, as wake_client does since 8ab686d, looks at
+    the client's other keys: it takes y from r - although client 2 blocked on r first and its own
+    wake-up for r is next in the wake-up queue; client 2 is registered again and keeps waiting.
+    The FIFO theorems above are about the queues and the push (a push serves the head of the
+    queue); this fallback bypasses the queue of the other key.  The model is faithful to the code
+    here (the tie agrees on this history), so the statement is refuted for the model AND the
+    implementation; [c13_fifo_*] stay true as stated. *)
+Definition w_overtake : list event :=
+  [EConnect 1; EConnect 2; EConnect 3;
+   at0 2 [bs "BLPOP"; bs "r"; bs "0"] (Some 0);
+   at0 1 [bs "BLPOP"; bs "q"; bs "r"; bs "0"] (Some 0);
+   at0 3 [bs "RPUSH"; bs "q"; bs "x"] None; at0 3 [bs "LPOP"; bs "q"] None;
+   at0 3 [bs "RPUSH"; bs "r"; bs "y"] None; EWakeups 0].
+Example c13_fifo_overtake_refuted :
+  all_ok sys0 w_overtake = true /\
+  let st := run sys0 w_overtake in
+  out_to st 1 = [FArray [FBulk (bs "r"); FBulk (bs "y")]] /\ out_to st 2 = [] /\
+  waiting st 0 (bs "r") = [2] /\ list_at (fst st) 0 (bs "r") = [].
+Proof. vm_compute. repeat split; reflexivity. Qed.
+
 (** ---- the classes that were repaired (all eight): what the witnesses do now ---- *)
 (** blocked-disconnect (fixed c7e6509; was: the element was written to the connection of the
     client that had gone): the connection is unregistered, the element stays in the list *)
